@@ -242,7 +242,7 @@ def kf_moved_then_redefined(w: Dict[str, Any]) -> bool:
         return False
     R = mods[ri - 1]
     d = R["ops"][pc - 1]
-    if d["k"] not in ("class", "def") or not R["hasAll"] or d["n"] not in R["all"]:
+    if d["k"] not in ("class", "def", "var") or d.get("ann") or not R["hasAll"] or d["n"] not in R["all"]:
         return False
     depth = 0
     for op in R["ops"][:pc - 1]:
